@@ -6,6 +6,7 @@ function is a probe emitting fn_enter/fn_exit. Behaviour of a user function is a
 """
 from __future__ import annotations
 
+import copy
 import json
 
 from aws_durable_execution_sdk_python import config as C
@@ -183,7 +184,7 @@ class Interp:
 
     def value_of(self, beh, default=None):
         if "val" in beh:
-            return beh["val"]
+            return copy.deepcopy(beh["val"])  # user functions build a fresh value on every call
         if "big" in beh:  # {"big": n_chars, "ch": "x"} -> large string
             return beh.get("ch", "x") * beh["big"]
         return default
@@ -299,7 +300,13 @@ class Interp:
             else C.StepSemantics.AT_LEAST_ONCE_PER_RETRY,
             serdes=SERDES[node.get("serdes")],
         )
-        return self.call(path, "step", lambda: ctx.step(fn, name=path, config=cfg), chain=self.next_chain(ctx))
+        v = self.call(path, "step", lambda: ctx.step(fn, name=path, config=cfg), chain=self.next_chain(ctx))
+        if node.get("mutate"):  # a workflow that updates the container it was handed (after the delivery was recorded)
+            if isinstance(v, list):
+                v.append("mutated@" + path)
+            elif isinstance(v, dict):
+                v["mutated"] = path
+        return v
 
     def do_uthreads(self, ctx, node, path):
         """User threads sharing one context (the SDK documents its id generation as thread-safe): T threads leave a barrier and
@@ -393,7 +400,7 @@ class Interp:
                 rt.rpc("fn_exit", path=path, fnkind="check", outcome="raise:" + beh["cls"])
                 raise make_exc(beh["cls"], beh.get("msg", "checkboom@" + path))
             if "val" in beh:
-                new = beh["val"]
+                new = copy.deepcopy(beh["val"])
             elif beh.get("fn") == "wrap":
                 new = (state, attempt)
             elif beh.get("fn") == "append":
@@ -419,7 +426,7 @@ class Interp:
                 return WaitForConditionDecision(should_continue=True, delay=duration(d[1]))  # plain constructor, equally public
             return WaitForConditionDecision.stop_polling()
 
-        cfg = WaitForConditionConfig(wait_strategy=strategy, initial_state=node.get("init", 0),
+        cfg = WaitForConditionConfig(wait_strategy=strategy, initial_state=copy.deepcopy(node.get("init", 0)),
                                      serdes=SERDES[node.get("serdes")])
         return self.call(path, "wfc", lambda: ctx.wait_for_condition(check, cfg, name=path), chain=self.next_chain(ctx))
 
